@@ -72,7 +72,7 @@ def run(ctx):
     if ctx.quick:
         cfg = cfg.replace("{0, 80, 144, 255}", "{0, 144}")
     ctx.mc("MC_Bip39", cfg, coverage=False, label="scaled instance (5-bit words): every 8- and 16-bit entropy value x checksum patterns")
-    events = core.build_events(ctx, gen_inputs(ctx))
+    events = core.build_events(ctx, gen_inputs(ctx) if ctx.quick else core.rounds(ctx, gen_inputs, 10))
     events += core.suite_events(ctx, ["tests/test_bip39.py", "tests/test_bip85.py"], ("Mnemonic",), len(events),
                                 limit=60 if ctx.quick else 1000)
     for e in events[1:3] + events[-1:]:
